@@ -19,6 +19,9 @@ Lemma get_set_nested : forall k o s, get k (set_nested o s) = get k s. Proof. re
 Lemma get_set_ctx : forall k o s, get k (set_ctx o s) = get k s. Proof. reflexivity. Qed.
 Lemma get_set_seq : forall k n s, get k (set_seq n s) = get k s. Proof. reflexivity. Qed.
 Lemma get_set_closed : forall k b s, get k (set_closed b s) = get k s. Proof. reflexivity. Qed.
+Lemma get_set_in_begin : forall k b s, get k (set_in_begin b s) = get k s. Proof. reflexivity. Qed.
+Lemma get_set_beginfail : forall k n s, get k (set_beginfail n s) = get k s. Proof. reflexivity. Qed.
+Lemma get_set_rbfail : forall k b s, get k (set_rbfail b s) = get k s. Proof. reflexivity. Qed.
 Lemma get_set_db : forall k d s, get k (set_db d s) = get k s. Proof. reflexivity. Qed.
 Lemma get_add_out : forall k e s, get k (add_out e s) = get k s. Proof. reflexivity. Qed.
 Lemma get_add_warn : forall k s, get k (add_warn s) = get k s. Proof. reflexivity. Qed.
@@ -28,6 +31,9 @@ Lemma active_set_nested : forall k o s, active k (set_nested o s) = active k s. 
 Lemma active_set_ctx : forall k o s, active k (set_ctx o s) = active k s. Proof. reflexivity. Qed.
 Lemma active_set_seq : forall k n s, active k (set_seq n s) = active k s. Proof. reflexivity. Qed.
 Lemma active_set_closed : forall k b s, active k (set_closed b s) = active k s. Proof. reflexivity. Qed.
+Lemma active_set_in_begin : forall k b s, active k (set_in_begin b s) = active k s. Proof. reflexivity. Qed.
+Lemma active_set_beginfail : forall k n s, active k (set_beginfail n s) = active k s. Proof. reflexivity. Qed.
+Lemma active_set_rbfail : forall k b s, active k (set_rbfail b s) = active k s. Proof. reflexivity. Qed.
 Lemma active_set_db : forall k d s, active k (set_db d s) = active k s. Proof. reflexivity. Qed.
 Lemma active_add_out : forall k e s, active k (add_out e s) = active k s. Proof. reflexivity. Qed.
 Lemma active_add_warn : forall k s, active k (add_warn s) = active k s. Proof. reflexivity. Qed.
@@ -37,6 +43,9 @@ Lemma is_root_set_nested : forall k o s, is_root k (set_nested o s) = is_root k 
 Lemma is_root_set_ctx : forall k o s, is_root k (set_ctx o s) = is_root k s. Proof. reflexivity. Qed.
 Lemma is_root_set_seq : forall k n s, is_root k (set_seq n s) = is_root k s. Proof. reflexivity. Qed.
 Lemma is_root_set_closed : forall k b s, is_root k (set_closed b s) = is_root k s. Proof. reflexivity. Qed.
+Lemma is_root_set_in_begin : forall k b s, is_root k (set_in_begin b s) = is_root k s. Proof. reflexivity. Qed.
+Lemma is_root_set_beginfail : forall k n s, is_root k (set_beginfail n s) = is_root k s. Proof. reflexivity. Qed.
+Lemma is_root_set_rbfail : forall k b s, is_root k (set_rbfail b s) = is_root k s. Proof. reflexivity. Qed.
 Lemma is_root_set_db : forall k d s, is_root k (set_db d s) = is_root k s. Proof. reflexivity. Qed.
 Lemma is_root_add_out : forall k e s, is_root k (add_out e s) = is_root k s. Proof. reflexivity. Qed.
 Lemma is_root_add_warn : forall k s, is_root k (add_warn s) = is_root k s. Proof. reflexivity. Qed.
@@ -46,6 +55,9 @@ Lemma sp_set_nested : forall k o s, sp k (set_nested o s) = sp k s. Proof. refle
 Lemma sp_set_ctx : forall k o s, sp k (set_ctx o s) = sp k s. Proof. reflexivity. Qed.
 Lemma sp_set_seq : forall k n s, sp k (set_seq n s) = sp k s. Proof. reflexivity. Qed.
 Lemma sp_set_closed : forall k b s, sp k (set_closed b s) = sp k s. Proof. reflexivity. Qed.
+Lemma sp_set_in_begin : forall k b s, sp k (set_in_begin b s) = sp k s. Proof. reflexivity. Qed.
+Lemma sp_set_beginfail : forall k n s, sp k (set_beginfail n s) = sp k s. Proof. reflexivity. Qed.
+Lemma sp_set_rbfail : forall k b s, sp k (set_rbfail b s) = sp k s. Proof. reflexivity. Qed.
 Lemma sp_set_db : forall k d s, sp k (set_db d s) = sp k s. Proof. reflexivity. Qed.
 Lemma sp_add_out : forall k e s, sp k (add_out e s) = sp k s. Proof. reflexivity. Qed.
 Lemma sp_add_warn : forall k s, sp k (add_warn s) = sp k s. Proof. reflexivity. Qed.
@@ -55,6 +67,9 @@ Lemma prev_set_nested : forall k o s, prev k (set_nested o s) = prev k s. Proof.
 Lemma prev_set_ctx : forall k o s, prev k (set_ctx o s) = prev k s. Proof. reflexivity. Qed.
 Lemma prev_set_seq : forall k n s, prev k (set_seq n s) = prev k s. Proof. reflexivity. Qed.
 Lemma prev_set_closed : forall k b s, prev k (set_closed b s) = prev k s. Proof. reflexivity. Qed.
+Lemma prev_set_in_begin : forall k b s, prev k (set_in_begin b s) = prev k s. Proof. reflexivity. Qed.
+Lemma prev_set_beginfail : forall k n s, prev k (set_beginfail n s) = prev k s. Proof. reflexivity. Qed.
+Lemma prev_set_rbfail : forall k b s, prev k (set_rbfail b s) = prev k s. Proof. reflexivity. Qed.
 Lemma prev_set_db : forall k d s, prev k (set_db d s) = prev k s. Proof. reflexivity. Qed.
 Lemma prev_add_out : forall k e s, prev k (add_out e s) = prev k s. Proof. reflexivity. Qed.
 Lemma prev_add_warn : forall k s, prev k (add_warn s) = prev k s. Proof. reflexivity. Qed.
@@ -64,6 +79,9 @@ Lemma subject_set_nested : forall k o s, subject k (set_nested o s) = subject k 
 Lemma subject_set_ctx : forall k o s, subject k (set_ctx o s) = subject k s. Proof. reflexivity. Qed.
 Lemma subject_set_seq : forall k n s, subject k (set_seq n s) = subject k s. Proof. reflexivity. Qed.
 Lemma subject_set_closed : forall k b s, subject k (set_closed b s) = subject k s. Proof. reflexivity. Qed.
+Lemma subject_set_in_begin : forall k b s, subject k (set_in_begin b s) = subject k s. Proof. reflexivity. Qed.
+Lemma subject_set_beginfail : forall k n s, subject k (set_beginfail n s) = subject k s. Proof. reflexivity. Qed.
+Lemma subject_set_rbfail : forall k b s, subject k (set_rbfail b s) = subject k s. Proof. reflexivity. Qed.
 Lemma subject_set_db : forall k d s, subject k (set_db d s) = subject k s. Proof. reflexivity. Qed.
 Lemma subject_add_out : forall k e s, subject k (add_out e s) = subject k s. Proof. reflexivity. Qed.
 Lemma subject_add_warn : forall k s, subject k (add_warn s) = subject k s. Proof. reflexivity. Qed.
@@ -73,6 +91,9 @@ Lemma outer_set_nested : forall k o s, outer k (set_nested o s) = outer k s. Pro
 Lemma outer_set_ctx : forall k o s, outer k (set_ctx o s) = outer k s. Proof. reflexivity. Qed.
 Lemma outer_set_seq : forall k n s, outer k (set_seq n s) = outer k s. Proof. reflexivity. Qed.
 Lemma outer_set_closed : forall k b s, outer k (set_closed b s) = outer k s. Proof. reflexivity. Qed.
+Lemma outer_set_in_begin : forall k b s, outer k (set_in_begin b s) = outer k s. Proof. reflexivity. Qed.
+Lemma outer_set_beginfail : forall k n s, outer k (set_beginfail n s) = outer k s. Proof. reflexivity. Qed.
+Lemma outer_set_rbfail : forall k b s, outer k (set_rbfail b s) = outer k s. Proof. reflexivity. Qed.
 Lemma outer_set_db : forall k d s, outer k (set_db d s) = outer k s. Proof. reflexivity. Qed.
 Lemma outer_add_out : forall k e s, outer k (add_out e s) = outer k s. Proof. reflexivity. Qed.
 Lemma outer_add_warn : forall k s, outer k (add_warn s) = outer k s. Proof. reflexivity. Qed.
@@ -82,11 +103,14 @@ Lemma len_set_nested : forall o s, length (txns (set_nested o s)) = length (txns
 Lemma len_set_ctx : forall o s, length (txns (set_ctx o s)) = length (txns s). Proof. reflexivity. Qed.
 Lemma len_set_seq : forall n s, length (txns (set_seq n s)) = length (txns s). Proof. reflexivity. Qed.
 Lemma len_set_closed : forall b s, length (txns (set_closed b s)) = length (txns s). Proof. reflexivity. Qed.
+Lemma len_set_in_begin : forall b s, length (txns (set_in_begin b s)) = length (txns s). Proof. reflexivity. Qed.
+Lemma len_set_beginfail : forall n s, length (txns (set_beginfail n s)) = length (txns s). Proof. reflexivity. Qed.
+Lemma len_set_rbfail : forall b s, length (txns (set_rbfail b s)) = length (txns s). Proof. reflexivity. Qed.
 Lemma len_set_db : forall d s, length (txns (set_db d s)) = length (txns s). Proof. reflexivity. Qed.
 Lemma len_add_out : forall e s, length (txns (add_out e s)) = length (txns s). Proof. reflexivity. Qed.
 Lemma len_add_warn : forall s, length (txns (add_warn s)) = length (txns s). Proof. reflexivity. Qed.
 Lemma len_clear_log : forall s, length (txns (clear_log s)) = length (txns s). Proof. reflexivity. Qed.
-Global Hint Rewrite get_set_root get_set_nested get_set_ctx get_set_seq get_set_closed get_set_db get_add_out get_add_warn get_clear_log active_set_root active_set_nested active_set_ctx active_set_seq active_set_closed active_set_db active_add_out active_add_warn active_clear_log is_root_set_root is_root_set_nested is_root_set_ctx is_root_set_seq is_root_set_closed is_root_set_db is_root_add_out is_root_add_warn is_root_clear_log sp_set_root sp_set_nested sp_set_ctx sp_set_seq sp_set_closed sp_set_db sp_add_out sp_add_warn sp_clear_log prev_set_root prev_set_nested prev_set_ctx prev_set_seq prev_set_closed prev_set_db prev_add_out prev_add_warn prev_clear_log subject_set_root subject_set_nested subject_set_ctx subject_set_seq subject_set_closed subject_set_db subject_add_out subject_add_warn subject_clear_log outer_set_root outer_set_nested outer_set_ctx outer_set_seq outer_set_closed outer_set_db outer_add_out outer_add_warn outer_clear_log len_set_root len_set_nested len_set_ctx len_set_seq len_set_closed len_set_db len_add_out len_add_warn len_clear_log : st.
+Global Hint Rewrite get_set_root get_set_nested get_set_ctx get_set_seq get_set_closed get_set_in_begin get_set_beginfail get_set_rbfail get_set_db get_add_out get_add_warn get_clear_log active_set_root active_set_nested active_set_ctx active_set_seq active_set_closed active_set_in_begin active_set_beginfail active_set_rbfail active_set_db active_add_out active_add_warn active_clear_log is_root_set_root is_root_set_nested is_root_set_ctx is_root_set_seq is_root_set_closed is_root_set_in_begin is_root_set_beginfail is_root_set_rbfail is_root_set_db is_root_add_out is_root_add_warn is_root_clear_log sp_set_root sp_set_nested sp_set_ctx sp_set_seq sp_set_closed sp_set_in_begin sp_set_beginfail sp_set_rbfail sp_set_db sp_add_out sp_add_warn sp_clear_log prev_set_root prev_set_nested prev_set_ctx prev_set_seq prev_set_closed prev_set_in_begin prev_set_beginfail prev_set_rbfail prev_set_db prev_add_out prev_add_warn prev_clear_log subject_set_root subject_set_nested subject_set_ctx subject_set_seq subject_set_closed subject_set_in_begin subject_set_beginfail subject_set_rbfail subject_set_db subject_add_out subject_add_warn subject_clear_log outer_set_root outer_set_nested outer_set_ctx outer_set_seq outer_set_closed outer_set_in_begin outer_set_beginfail outer_set_rbfail outer_set_db outer_add_out outer_add_warn outer_clear_log len_set_root len_set_nested len_set_ctx len_set_seq len_set_closed len_set_in_begin len_set_beginfail len_set_rbfail len_set_db len_add_out len_add_warn len_clear_log : st.
 
 (* ---- generated: projections of updated states ---- *)
 Lemma c_root_set_root : forall o s, c_root (set_root o s) = o. Proof. reflexivity. Qed.
@@ -94,6 +118,9 @@ Lemma c_root_set_nested : forall o s, c_root (set_nested o s) = c_root s. Proof.
 Lemma c_root_set_ctx : forall o s, c_root (set_ctx o s) = c_root s. Proof. reflexivity. Qed.
 Lemma c_root_set_seq : forall n s, c_root (set_seq n s) = c_root s. Proof. reflexivity. Qed.
 Lemma c_root_set_closed : forall b s, c_root (set_closed b s) = c_root s. Proof. reflexivity. Qed.
+Lemma c_root_set_in_begin : forall b s, c_root (set_in_begin b s) = c_root s. Proof. reflexivity. Qed.
+Lemma c_root_set_beginfail : forall n s, c_root (set_beginfail n s) = c_root s. Proof. reflexivity. Qed.
+Lemma c_root_set_rbfail : forall b s, c_root (set_rbfail b s) = c_root s. Proof. reflexivity. Qed.
 Lemma c_root_set_db : forall d s, c_root (set_db d s) = c_root s. Proof. reflexivity. Qed.
 Lemma c_root_add_out : forall e s, c_root (add_out e s) = c_root s. Proof. reflexivity. Qed.
 Lemma c_root_add_warn : forall s, c_root (add_warn s) = c_root s. Proof. reflexivity. Qed.
@@ -103,6 +130,9 @@ Lemma c_nested_set_nested : forall o s, c_nested (set_nested o s) = o. Proof. re
 Lemma c_nested_set_ctx : forall o s, c_nested (set_ctx o s) = c_nested s. Proof. reflexivity. Qed.
 Lemma c_nested_set_seq : forall n s, c_nested (set_seq n s) = c_nested s. Proof. reflexivity. Qed.
 Lemma c_nested_set_closed : forall b s, c_nested (set_closed b s) = c_nested s. Proof. reflexivity. Qed.
+Lemma c_nested_set_in_begin : forall b s, c_nested (set_in_begin b s) = c_nested s. Proof. reflexivity. Qed.
+Lemma c_nested_set_beginfail : forall n s, c_nested (set_beginfail n s) = c_nested s. Proof. reflexivity. Qed.
+Lemma c_nested_set_rbfail : forall b s, c_nested (set_rbfail b s) = c_nested s. Proof. reflexivity. Qed.
 Lemma c_nested_set_db : forall d s, c_nested (set_db d s) = c_nested s. Proof. reflexivity. Qed.
 Lemma c_nested_add_out : forall e s, c_nested (add_out e s) = c_nested s. Proof. reflexivity. Qed.
 Lemma c_nested_add_warn : forall s, c_nested (add_warn s) = c_nested s. Proof. reflexivity. Qed.
@@ -112,6 +142,9 @@ Lemma c_ctx_set_nested : forall o s, c_ctx (set_nested o s) = c_ctx s. Proof. re
 Lemma c_ctx_set_ctx : forall o s, c_ctx (set_ctx o s) = o. Proof. reflexivity. Qed.
 Lemma c_ctx_set_seq : forall n s, c_ctx (set_seq n s) = c_ctx s. Proof. reflexivity. Qed.
 Lemma c_ctx_set_closed : forall b s, c_ctx (set_closed b s) = c_ctx s. Proof. reflexivity. Qed.
+Lemma c_ctx_set_in_begin : forall b s, c_ctx (set_in_begin b s) = c_ctx s. Proof. reflexivity. Qed.
+Lemma c_ctx_set_beginfail : forall n s, c_ctx (set_beginfail n s) = c_ctx s. Proof. reflexivity. Qed.
+Lemma c_ctx_set_rbfail : forall b s, c_ctx (set_rbfail b s) = c_ctx s. Proof. reflexivity. Qed.
 Lemma c_ctx_set_db : forall d s, c_ctx (set_db d s) = c_ctx s. Proof. reflexivity. Qed.
 Lemma c_ctx_add_out : forall e s, c_ctx (add_out e s) = c_ctx s. Proof. reflexivity. Qed.
 Lemma c_ctx_add_warn : forall s, c_ctx (add_warn s) = c_ctx s. Proof. reflexivity. Qed.
@@ -121,6 +154,9 @@ Lemma c_seq_set_nested : forall o s, c_seq (set_nested o s) = c_seq s. Proof. re
 Lemma c_seq_set_ctx : forall o s, c_seq (set_ctx o s) = c_seq s. Proof. reflexivity. Qed.
 Lemma c_seq_set_seq : forall n s, c_seq (set_seq n s) = n. Proof. reflexivity. Qed.
 Lemma c_seq_set_closed : forall b s, c_seq (set_closed b s) = c_seq s. Proof. reflexivity. Qed.
+Lemma c_seq_set_in_begin : forall b s, c_seq (set_in_begin b s) = c_seq s. Proof. reflexivity. Qed.
+Lemma c_seq_set_beginfail : forall n s, c_seq (set_beginfail n s) = c_seq s. Proof. reflexivity. Qed.
+Lemma c_seq_set_rbfail : forall b s, c_seq (set_rbfail b s) = c_seq s. Proof. reflexivity. Qed.
 Lemma c_seq_set_db : forall d s, c_seq (set_db d s) = c_seq s. Proof. reflexivity. Qed.
 Lemma c_seq_add_out : forall e s, c_seq (add_out e s) = c_seq s. Proof. reflexivity. Qed.
 Lemma c_seq_add_warn : forall s, c_seq (add_warn s) = c_seq s. Proof. reflexivity. Qed.
@@ -130,15 +166,57 @@ Lemma c_closed_set_nested : forall o s, c_closed (set_nested o s) = c_closed s. 
 Lemma c_closed_set_ctx : forall o s, c_closed (set_ctx o s) = c_closed s. Proof. reflexivity. Qed.
 Lemma c_closed_set_seq : forall n s, c_closed (set_seq n s) = c_closed s. Proof. reflexivity. Qed.
 Lemma c_closed_set_closed : forall b s, c_closed (set_closed b s) = b. Proof. reflexivity. Qed.
+Lemma c_closed_set_in_begin : forall b s, c_closed (set_in_begin b s) = c_closed s. Proof. reflexivity. Qed.
+Lemma c_closed_set_beginfail : forall n s, c_closed (set_beginfail n s) = c_closed s. Proof. reflexivity. Qed.
+Lemma c_closed_set_rbfail : forall b s, c_closed (set_rbfail b s) = c_closed s. Proof. reflexivity. Qed.
 Lemma c_closed_set_db : forall d s, c_closed (set_db d s) = c_closed s. Proof. reflexivity. Qed.
 Lemma c_closed_add_out : forall e s, c_closed (add_out e s) = c_closed s. Proof. reflexivity. Qed.
 Lemma c_closed_add_warn : forall s, c_closed (add_warn s) = c_closed s. Proof. reflexivity. Qed.
 Lemma c_closed_clear_log : forall s, c_closed (clear_log s) = c_closed s. Proof. reflexivity. Qed.
+Lemma c_in_begin_set_root : forall o s, c_in_begin (set_root o s) = c_in_begin s. Proof. reflexivity. Qed.
+Lemma c_in_begin_set_nested : forall o s, c_in_begin (set_nested o s) = c_in_begin s. Proof. reflexivity. Qed.
+Lemma c_in_begin_set_ctx : forall o s, c_in_begin (set_ctx o s) = c_in_begin s. Proof. reflexivity. Qed.
+Lemma c_in_begin_set_seq : forall n s, c_in_begin (set_seq n s) = c_in_begin s. Proof. reflexivity. Qed.
+Lemma c_in_begin_set_closed : forall b s, c_in_begin (set_closed b s) = c_in_begin s. Proof. reflexivity. Qed.
+Lemma c_in_begin_set_in_begin : forall b s, c_in_begin (set_in_begin b s) = b. Proof. reflexivity. Qed.
+Lemma c_in_begin_set_beginfail : forall n s, c_in_begin (set_beginfail n s) = c_in_begin s. Proof. reflexivity. Qed.
+Lemma c_in_begin_set_rbfail : forall b s, c_in_begin (set_rbfail b s) = c_in_begin s. Proof. reflexivity. Qed.
+Lemma c_in_begin_set_db : forall d s, c_in_begin (set_db d s) = c_in_begin s. Proof. reflexivity. Qed.
+Lemma c_in_begin_add_out : forall e s, c_in_begin (add_out e s) = c_in_begin s. Proof. reflexivity. Qed.
+Lemma c_in_begin_add_warn : forall s, c_in_begin (add_warn s) = c_in_begin s. Proof. reflexivity. Qed.
+Lemma c_in_begin_clear_log : forall s, c_in_begin (clear_log s) = c_in_begin s. Proof. reflexivity. Qed.
+Lemma c_beginfail_set_root : forall o s, c_beginfail (set_root o s) = c_beginfail s. Proof. reflexivity. Qed.
+Lemma c_beginfail_set_nested : forall o s, c_beginfail (set_nested o s) = c_beginfail s. Proof. reflexivity. Qed.
+Lemma c_beginfail_set_ctx : forall o s, c_beginfail (set_ctx o s) = c_beginfail s. Proof. reflexivity. Qed.
+Lemma c_beginfail_set_seq : forall n s, c_beginfail (set_seq n s) = c_beginfail s. Proof. reflexivity. Qed.
+Lemma c_beginfail_set_closed : forall b s, c_beginfail (set_closed b s) = c_beginfail s. Proof. reflexivity. Qed.
+Lemma c_beginfail_set_in_begin : forall b s, c_beginfail (set_in_begin b s) = c_beginfail s. Proof. reflexivity. Qed.
+Lemma c_beginfail_set_beginfail : forall n s, c_beginfail (set_beginfail n s) = n. Proof. reflexivity. Qed.
+Lemma c_beginfail_set_rbfail : forall b s, c_beginfail (set_rbfail b s) = c_beginfail s. Proof. reflexivity. Qed.
+Lemma c_beginfail_set_db : forall d s, c_beginfail (set_db d s) = c_beginfail s. Proof. reflexivity. Qed.
+Lemma c_beginfail_add_out : forall e s, c_beginfail (add_out e s) = c_beginfail s. Proof. reflexivity. Qed.
+Lemma c_beginfail_add_warn : forall s, c_beginfail (add_warn s) = c_beginfail s. Proof. reflexivity. Qed.
+Lemma c_beginfail_clear_log : forall s, c_beginfail (clear_log s) = c_beginfail s. Proof. reflexivity. Qed.
+Lemma c_rbfail_set_root : forall o s, c_rbfail (set_root o s) = c_rbfail s. Proof. reflexivity. Qed.
+Lemma c_rbfail_set_nested : forall o s, c_rbfail (set_nested o s) = c_rbfail s. Proof. reflexivity. Qed.
+Lemma c_rbfail_set_ctx : forall o s, c_rbfail (set_ctx o s) = c_rbfail s. Proof. reflexivity. Qed.
+Lemma c_rbfail_set_seq : forall n s, c_rbfail (set_seq n s) = c_rbfail s. Proof. reflexivity. Qed.
+Lemma c_rbfail_set_closed : forall b s, c_rbfail (set_closed b s) = c_rbfail s. Proof. reflexivity. Qed.
+Lemma c_rbfail_set_in_begin : forall b s, c_rbfail (set_in_begin b s) = c_rbfail s. Proof. reflexivity. Qed.
+Lemma c_rbfail_set_beginfail : forall n s, c_rbfail (set_beginfail n s) = c_rbfail s. Proof. reflexivity. Qed.
+Lemma c_rbfail_set_rbfail : forall b s, c_rbfail (set_rbfail b s) = b. Proof. reflexivity. Qed.
+Lemma c_rbfail_set_db : forall d s, c_rbfail (set_db d s) = c_rbfail s. Proof. reflexivity. Qed.
+Lemma c_rbfail_add_out : forall e s, c_rbfail (add_out e s) = c_rbfail s. Proof. reflexivity. Qed.
+Lemma c_rbfail_add_warn : forall s, c_rbfail (add_warn s) = c_rbfail s. Proof. reflexivity. Qed.
+Lemma c_rbfail_clear_log : forall s, c_rbfail (clear_log s) = c_rbfail s. Proof. reflexivity. Qed.
 Lemma s_db_set_root : forall o s, s_db (set_root o s) = s_db s. Proof. reflexivity. Qed.
 Lemma s_db_set_nested : forall o s, s_db (set_nested o s) = s_db s. Proof. reflexivity. Qed.
 Lemma s_db_set_ctx : forall o s, s_db (set_ctx o s) = s_db s. Proof. reflexivity. Qed.
 Lemma s_db_set_seq : forall n s, s_db (set_seq n s) = s_db s. Proof. reflexivity. Qed.
 Lemma s_db_set_closed : forall b s, s_db (set_closed b s) = s_db s. Proof. reflexivity. Qed.
+Lemma s_db_set_in_begin : forall b s, s_db (set_in_begin b s) = s_db s. Proof. reflexivity. Qed.
+Lemma s_db_set_beginfail : forall n s, s_db (set_beginfail n s) = s_db s. Proof. reflexivity. Qed.
+Lemma s_db_set_rbfail : forall b s, s_db (set_rbfail b s) = s_db s. Proof. reflexivity. Qed.
 Lemma s_db_set_db : forall d s, s_db (set_db d s) = d. Proof. reflexivity. Qed.
 Lemma s_db_add_out : forall e s, s_db (add_out e s) = s_db s. Proof. reflexivity. Qed.
 Lemma s_db_add_warn : forall s, s_db (add_warn s) = s_db s. Proof. reflexivity. Qed.
@@ -148,6 +226,9 @@ Lemma s_out_set_nested : forall o s, s_out (set_nested o s) = s_out s. Proof. re
 Lemma s_out_set_ctx : forall o s, s_out (set_ctx o s) = s_out s. Proof. reflexivity. Qed.
 Lemma s_out_set_seq : forall n s, s_out (set_seq n s) = s_out s. Proof. reflexivity. Qed.
 Lemma s_out_set_closed : forall b s, s_out (set_closed b s) = s_out s. Proof. reflexivity. Qed.
+Lemma s_out_set_in_begin : forall b s, s_out (set_in_begin b s) = s_out s. Proof. reflexivity. Qed.
+Lemma s_out_set_beginfail : forall n s, s_out (set_beginfail n s) = s_out s. Proof. reflexivity. Qed.
+Lemma s_out_set_rbfail : forall b s, s_out (set_rbfail b s) = s_out s. Proof. reflexivity. Qed.
 Lemma s_out_set_db : forall d s, s_out (set_db d s) = s_out s. Proof. reflexivity. Qed.
 Lemma s_out_add_out : forall e s, s_out (add_out e s) = s_out s ++ [e]. Proof. reflexivity. Qed.
 Lemma s_out_add_warn : forall s, s_out (add_warn s) = s_out s. Proof. reflexivity. Qed.
@@ -157,6 +238,9 @@ Lemma s_warns_set_nested : forall o s, s_warns (set_nested o s) = s_warns s. Pro
 Lemma s_warns_set_ctx : forall o s, s_warns (set_ctx o s) = s_warns s. Proof. reflexivity. Qed.
 Lemma s_warns_set_seq : forall n s, s_warns (set_seq n s) = s_warns s. Proof. reflexivity. Qed.
 Lemma s_warns_set_closed : forall b s, s_warns (set_closed b s) = s_warns s. Proof. reflexivity. Qed.
+Lemma s_warns_set_in_begin : forall b s, s_warns (set_in_begin b s) = s_warns s. Proof. reflexivity. Qed.
+Lemma s_warns_set_beginfail : forall n s, s_warns (set_beginfail n s) = s_warns s. Proof. reflexivity. Qed.
+Lemma s_warns_set_rbfail : forall b s, s_warns (set_rbfail b s) = s_warns s. Proof. reflexivity. Qed.
 Lemma s_warns_set_db : forall d s, s_warns (set_db d s) = s_warns s. Proof. reflexivity. Qed.
 Lemma s_warns_add_out : forall e s, s_warns (add_out e s) = s_warns s. Proof. reflexivity. Qed.
 Lemma s_warns_add_warn : forall s, s_warns (add_warn s) = S (s_warns s). Proof. reflexivity. Qed.
@@ -166,6 +250,9 @@ Lemma txns_set_nested : forall o s, txns (set_nested o s) = txns s. Proof. refle
 Lemma txns_set_ctx : forall o s, txns (set_ctx o s) = txns s. Proof. reflexivity. Qed.
 Lemma txns_set_seq : forall n s, txns (set_seq n s) = txns s. Proof. reflexivity. Qed.
 Lemma txns_set_closed : forall b s, txns (set_closed b s) = txns s. Proof. reflexivity. Qed.
+Lemma txns_set_in_begin : forall b s, txns (set_in_begin b s) = txns s. Proof. reflexivity. Qed.
+Lemma txns_set_beginfail : forall n s, txns (set_beginfail n s) = txns s. Proof. reflexivity. Qed.
+Lemma txns_set_rbfail : forall b s, txns (set_rbfail b s) = txns s. Proof. reflexivity. Qed.
 Lemma txns_set_db : forall d s, txns (set_db d s) = txns s. Proof. reflexivity. Qed.
 Lemma txns_add_out : forall e s, txns (add_out e s) = txns s. Proof. reflexivity. Qed.
 Lemma txns_add_warn : forall s, txns (add_warn s) = txns s. Proof. reflexivity. Qed.
@@ -185,6 +272,15 @@ Lemma c_seq_set_active : forall k b s, c_seq (set_active k b s) = c_seq s. Proof
 Lemma c_closed_push_txn : forall t s, c_closed (push_txn t s) = c_closed s. Proof. reflexivity. Qed.
 Lemma c_closed_upd_txn : forall k f s, c_closed (upd_txn k f s) = c_closed s. Proof. reflexivity. Qed.
 Lemma c_closed_set_active : forall k b s, c_closed (set_active k b s) = c_closed s. Proof. reflexivity. Qed.
+Lemma c_in_begin_push_txn : forall t s, c_in_begin (push_txn t s) = c_in_begin s. Proof. reflexivity. Qed.
+Lemma c_in_begin_upd_txn : forall k f s, c_in_begin (upd_txn k f s) = c_in_begin s. Proof. reflexivity. Qed.
+Lemma c_in_begin_set_active : forall k b s, c_in_begin (set_active k b s) = c_in_begin s. Proof. reflexivity. Qed.
+Lemma c_beginfail_push_txn : forall t s, c_beginfail (push_txn t s) = c_beginfail s. Proof. reflexivity. Qed.
+Lemma c_beginfail_upd_txn : forall k f s, c_beginfail (upd_txn k f s) = c_beginfail s. Proof. reflexivity. Qed.
+Lemma c_beginfail_set_active : forall k b s, c_beginfail (set_active k b s) = c_beginfail s. Proof. reflexivity. Qed.
+Lemma c_rbfail_push_txn : forall t s, c_rbfail (push_txn t s) = c_rbfail s. Proof. reflexivity. Qed.
+Lemma c_rbfail_upd_txn : forall k f s, c_rbfail (upd_txn k f s) = c_rbfail s. Proof. reflexivity. Qed.
+Lemma c_rbfail_set_active : forall k b s, c_rbfail (set_active k b s) = c_rbfail s. Proof. reflexivity. Qed.
 Lemma s_db_push_txn : forall t s, s_db (push_txn t s) = s_db s. Proof. reflexivity. Qed.
 Lemma s_db_upd_txn : forall k f s, s_db (upd_txn k f s) = s_db s. Proof. reflexivity. Qed.
 Lemma s_db_set_active : forall k b s, s_db (set_active k b s) = s_db s. Proof. reflexivity. Qed.
@@ -194,7 +290,7 @@ Lemma s_out_set_active : forall k b s, s_out (set_active k b s) = s_out s. Proof
 Lemma s_warns_push_txn : forall t s, s_warns (push_txn t s) = s_warns s. Proof. reflexivity. Qed.
 Lemma s_warns_upd_txn : forall k f s, s_warns (upd_txn k f s) = s_warns s. Proof. reflexivity. Qed.
 Lemma s_warns_set_active : forall k b s, s_warns (set_active k b s) = s_warns s. Proof. reflexivity. Qed.
-Global Hint Rewrite c_root_set_root c_root_set_nested c_root_set_ctx c_root_set_seq c_root_set_closed c_root_set_db c_root_add_out c_root_add_warn c_root_clear_log c_nested_set_root c_nested_set_nested c_nested_set_ctx c_nested_set_seq c_nested_set_closed c_nested_set_db c_nested_add_out c_nested_add_warn c_nested_clear_log c_ctx_set_root c_ctx_set_nested c_ctx_set_ctx c_ctx_set_seq c_ctx_set_closed c_ctx_set_db c_ctx_add_out c_ctx_add_warn c_ctx_clear_log c_seq_set_root c_seq_set_nested c_seq_set_ctx c_seq_set_seq c_seq_set_closed c_seq_set_db c_seq_add_out c_seq_add_warn c_seq_clear_log c_closed_set_root c_closed_set_nested c_closed_set_ctx c_closed_set_seq c_closed_set_closed c_closed_set_db c_closed_add_out c_closed_add_warn c_closed_clear_log s_db_set_root s_db_set_nested s_db_set_ctx s_db_set_seq s_db_set_closed s_db_set_db s_db_add_out s_db_add_warn s_db_clear_log s_out_set_root s_out_set_nested s_out_set_ctx s_out_set_seq s_out_set_closed s_out_set_db s_out_add_out s_out_add_warn s_out_clear_log s_warns_set_root s_warns_set_nested s_warns_set_ctx s_warns_set_seq s_warns_set_closed s_warns_set_db s_warns_add_out s_warns_add_warn s_warns_clear_log txns_set_root txns_set_nested txns_set_ctx txns_set_seq txns_set_closed txns_set_db txns_add_out txns_add_warn txns_clear_log c_root_push_txn c_root_upd_txn c_root_set_active c_nested_push_txn c_nested_upd_txn c_nested_set_active c_ctx_push_txn c_ctx_upd_txn c_ctx_set_active c_seq_push_txn c_seq_upd_txn c_seq_set_active c_closed_push_txn c_closed_upd_txn c_closed_set_active s_db_push_txn s_db_upd_txn s_db_set_active s_out_push_txn s_out_upd_txn s_out_set_active s_warns_push_txn s_warns_upd_txn s_warns_set_active : st.
+Global Hint Rewrite c_root_set_root c_root_set_nested c_root_set_ctx c_root_set_seq c_root_set_closed c_root_set_in_begin c_root_set_beginfail c_root_set_rbfail c_root_set_db c_root_add_out c_root_add_warn c_root_clear_log c_nested_set_root c_nested_set_nested c_nested_set_ctx c_nested_set_seq c_nested_set_closed c_nested_set_in_begin c_nested_set_beginfail c_nested_set_rbfail c_nested_set_db c_nested_add_out c_nested_add_warn c_nested_clear_log c_ctx_set_root c_ctx_set_nested c_ctx_set_ctx c_ctx_set_seq c_ctx_set_closed c_ctx_set_in_begin c_ctx_set_beginfail c_ctx_set_rbfail c_ctx_set_db c_ctx_add_out c_ctx_add_warn c_ctx_clear_log c_seq_set_root c_seq_set_nested c_seq_set_ctx c_seq_set_seq c_seq_set_closed c_seq_set_in_begin c_seq_set_beginfail c_seq_set_rbfail c_seq_set_db c_seq_add_out c_seq_add_warn c_seq_clear_log c_closed_set_root c_closed_set_nested c_closed_set_ctx c_closed_set_seq c_closed_set_closed c_closed_set_in_begin c_closed_set_beginfail c_closed_set_rbfail c_closed_set_db c_closed_add_out c_closed_add_warn c_closed_clear_log c_in_begin_set_root c_in_begin_set_nested c_in_begin_set_ctx c_in_begin_set_seq c_in_begin_set_closed c_in_begin_set_in_begin c_in_begin_set_beginfail c_in_begin_set_rbfail c_in_begin_set_db c_in_begin_add_out c_in_begin_add_warn c_in_begin_clear_log c_beginfail_set_root c_beginfail_set_nested c_beginfail_set_ctx c_beginfail_set_seq c_beginfail_set_closed c_beginfail_set_in_begin c_beginfail_set_beginfail c_beginfail_set_rbfail c_beginfail_set_db c_beginfail_add_out c_beginfail_add_warn c_beginfail_clear_log c_rbfail_set_root c_rbfail_set_nested c_rbfail_set_ctx c_rbfail_set_seq c_rbfail_set_closed c_rbfail_set_in_begin c_rbfail_set_beginfail c_rbfail_set_rbfail c_rbfail_set_db c_rbfail_add_out c_rbfail_add_warn c_rbfail_clear_log s_db_set_root s_db_set_nested s_db_set_ctx s_db_set_seq s_db_set_closed s_db_set_in_begin s_db_set_beginfail s_db_set_rbfail s_db_set_db s_db_add_out s_db_add_warn s_db_clear_log s_out_set_root s_out_set_nested s_out_set_ctx s_out_set_seq s_out_set_closed s_out_set_in_begin s_out_set_beginfail s_out_set_rbfail s_out_set_db s_out_add_out s_out_add_warn s_out_clear_log s_warns_set_root s_warns_set_nested s_warns_set_ctx s_warns_set_seq s_warns_set_closed s_warns_set_in_begin s_warns_set_beginfail s_warns_set_rbfail s_warns_set_db s_warns_add_out s_warns_add_warn s_warns_clear_log txns_set_root txns_set_nested txns_set_ctx txns_set_seq txns_set_closed txns_set_in_begin txns_set_beginfail txns_set_rbfail txns_set_db txns_add_out txns_add_warn txns_clear_log c_root_push_txn c_root_upd_txn c_root_set_active c_nested_push_txn c_nested_upd_txn c_nested_set_active c_ctx_push_txn c_ctx_upd_txn c_ctx_set_active c_seq_push_txn c_seq_upd_txn c_seq_set_active c_closed_push_txn c_closed_upd_txn c_closed_set_active c_in_begin_push_txn c_in_begin_upd_txn c_in_begin_set_active c_beginfail_push_txn c_beginfail_upd_txn c_beginfail_set_active c_rbfail_push_txn c_rbfail_upd_txn c_rbfail_set_active s_db_push_txn s_db_upd_txn s_db_set_active s_out_push_txn s_out_upd_txn s_out_set_active s_warns_push_txn s_warns_upd_txn s_warns_set_active : st.
 
 (* ---- updates of the object table ---- *)
 Lemma upd_length : forall A (f : A -> A) l k, length (upd k f l) = length l.
